@@ -93,7 +93,10 @@ static int tw_walk(struct tw* w, const struct reb_treecell* node, const struct r
         if (w->seen[node->pt]++) tw_fail(w, "particle %d sits in more than one leaf", node->pt);
         const struct reb_particle* p = &r->particles[node->pt];
         if (p->c != node) tw_fail(w, "particle %d back-pointer does not point to its leaf", node->pt);
-        if (!isnan(p->y) && (fabs(p->x - node->x) > node->w / 2. || fabs(p->y - node->y) > node->w / 2. || fabs(p->z - node->z) > node->w / 2.))
+        /* containment up to the rounding of the library's own cell assignment: the root-box / octant arithmetic
+         * (floor((x+L/2)/root_size), x < centre) may place a particle that is one rounding error outside a border in the adjacent cell */
+        #define TOL(a, b, w) (1e-15 * (fabs(a) + fabs(b) + (w)) * 4.)
+        if (!isnan(p->y) && (fabs(p->x - node->x) > node->w / 2. + TOL(p->x, node->x, node->w) || fabs(p->y - node->y) > node->w / 2. + TOL(p->y, node->y, node->w) || fabs(p->z - node->z) > node->w / 2. + TOL(p->z, node->z, node->w)))
             tw_fail(w, "leaf cell (w=%g at %g %g %g) does not contain particle %d (%g %g %g)", node->w, node->x, node->y, node->z, node->pt, p->x, p->y, p->z);
         for (int i = 0; i < 8; i++) if (node->oct[i]) tw_fail(w, "leaf has children");
         if (w->check_mass){
@@ -154,4 +157,16 @@ static double hb_dld_value = 0; static int hb_dld_armed = 0;
 EXP void verif_hb_restore_dt_last_done(double v){ hb_dld_value = v; hb_dld_armed = 1; }
 EXP void verif_heartbeat_dld(struct reb_simulation* r){
     if (hb_dld_armed){ r->dt_last_done = hb_dld_value; hb_dld_armed = 0; }
+}
+
+/* additional_forces callback that validates the tree at the moment it has just been used by the
+ * gravity walk (C15).  First failure message and call count are kept for the harness. */
+static char treecb_msg[400]; static int treecb_bad = 0, treecb_calls = 0, treecb_mass = 0;
+EXP void verif_treecb_reset(int check_mass){ treecb_msg[0] = 0; treecb_bad = 0; treecb_calls = 0; treecb_mass = check_mass; }
+EXP int verif_treecb_result(char* msg, int cap, int* calls){ if (msg && cap){ strncpy(msg, treecb_msg, cap - 1); msg[cap - 1] = 0; } *calls = treecb_calls; return treecb_bad; }
+EXP void verif_force_treecheck(struct reb_simulation* r){
+    char m[400]; uint64_t out[4];
+    treecb_calls++;
+    int bad = verif_tree_check(r, treecb_mass, m, sizeof(m), out);
+    if (bad && !treecb_bad){ treecb_bad = bad; snprintf(treecb_msg, sizeof(treecb_msg), "step %lu t=%g: %s", (unsigned long)r->steps_done, r->t, m); }
 }
